@@ -5,3 +5,4 @@ import Echse.Model.Strpf
 import Echse.Model.Scale
 import Echse.Model.Sort
 import Echse.Model.Stream
+import Echse.Model.Tz
